@@ -60,8 +60,7 @@ var dists = []dist{
 
 // plan: which distributions run, how many worker processes each gets, depth.
 type planItem struct {
-	Dist, Workers, Depth  int
-	MaxPower, MaxOverride int // bounds on the number of Power / Override steps in one history
+	Dist, Workers, Depth int
 }
 
 func plan() []planItem {
@@ -75,26 +74,23 @@ func plan() []planItem {
 		if n == 0 {
 			n = 1
 		}
-		mp, _ := strconv.Atoi(os.Getenv("C02_MAXPOWER"))
-		mo, _ := strconv.Atoi(os.Getenv("C02_MAXOVR"))
-		return []planItem{{i, n, d, mp, mo}}
+		return []planItem{{i, n, d}}
 	}
 	if report.Tier() == "thorough" {
-		return []planItem{{0, 3, 7, 3, 3}, {1, 3, 7, 3, 3}, {2, 2, 7, 3, 3}, {3, 1, 9, 3, 3}, {4, 7, 6, 3, 3}}
+		return []planItem{{0, 3, 7}, {1, 3, 7}, {2, 2, 7}, {3, 1, 9}, {4, 7, 6}}
 	}
-	return []planItem{{0, 6, 6, 2, 2}, {1, 5, 6, 2, 2}, {2, 5, 6, 2, 2}}
+	return []planItem{{0, 6, 6}, {1, 5, 6}, {2, 5, 6}}
 }
 
 type slot struct {
 	Dist, Sub, NSub, Depth int
-	MaxPower, MaxOverride  int
 }
 
 func slots() []slot {
 	var out []slot
 	for _, p := range plan() {
 		for s := 0; s < p.Workers; s++ {
-			out = append(out, slot{p.Dist, s, p.Workers, p.Depth, p.MaxPower, p.MaxOverride})
+			out = append(out, slot{p.Dist, s, p.Workers, p.Depth})
 		}
 	}
 	return out
@@ -126,15 +122,14 @@ type ghost struct {
 	BatchDone   bool
 	// partial-order reduction (see ops): index+1 of the validator whose power was
 	// changed last since the latest tally (0 = none pending); after an override.
-	PowerPending      int
-	AfterOverride     bool
-	NPower, NOverride int // steps of that kind so far (the plan bounds them)
+	PowerPending  int
+	AfterOverride bool
 }
 
 func (g *ghost) Clone() explore.Ghost {
 	return &ghost{Voters: append([]uint8{}, g.Voters...), Obs: append([]bool{}, g.Obs...), Cursor: g.Cursor,
 		EpochNonces: append([]uint64{}, g.EpochNonces...), Epoch: g.Epoch, Minted: g.Minted, Burned: g.Burned, BatchDone: g.BatchDone,
-		PowerPending: g.PowerPending, AfterOverride: g.AfterOverride, NPower: g.NPower, NOverride: g.NOverride}
+		PowerPending: g.PowerPending, AfterOverride: g.AfterOverride}
 }
 
 func (g *ghost) Key() string { b, _ := json.Marshal(g); return string(b) }
@@ -199,7 +194,7 @@ func run(r *report.Run, shard, nshards int, replayFile string) {
 		found := false
 		for i, d := range dists {
 			if d.Name == m["scenario"] {
-				sl = slot{Dist: i, Sub: 0, NSub: 1, Depth: len(path), MaxPower: len(path), MaxOverride: len(path)}
+				sl = slot{Dist: i, Sub: 0, NSub: 1, Depth: len(path)}
 				found = true
 			}
 		}
@@ -209,6 +204,9 @@ func run(r *report.Run, shard, nshards int, replayFile string) {
 		}
 	}
 	e := setup(r, sl)
+	if sd, _ := strconv.Atoi(os.Getenv("C02_SHARDDEPTH")); sd > 0 {
+		e.shardDepth = sd
+	}
 
 	r.Rule = "BFS over Vote(v,claim) (really signed MsgSendToPalomaClaim / MsgBatchSendToRemoteClaim txs through ante + router) for competing claims cA,cB (deposits of 7 / 9, same nonce 1), cX (batch-executed, nonce 1), cC (deposit, nonce 2) [thorough: + cU, deposit of an unregistered token, nonce 1]; Tally (skyway.EndBlocker); CatchUp (skyway.EndBlocker at height 150 => UpdateValidatorNoncesToLatest); Power(v,p) p in {0, p0, 2*p0} (staking last-validator-power + last-total-power); Override(k) k in {last-1,last,last+1} (MsgNonceOverrideProposal by the gov authority); one search per stake distribution; a state is distinct by (skyway store, last powers, ghost voter sets / observed set / epoch cursor)"
 	r.Assumptions = []string{
@@ -225,7 +223,7 @@ func run(r *report.Run, shard, nshards int, replayFile string) {
 		Ops:        e.ops,
 		Hash:       e.hash,
 		MaxDepth:   sl.Depth,
-		Deadline:   r.Deadline(100*time.Second, 23*time.Minute),
+		Deadline:   deadline(r),
 		ShardDepth: e.shardDepth, Shard: sl.Sub, NShards: sl.NSub,
 	}
 	if replayFile != "" {
@@ -236,11 +234,22 @@ func run(r *report.Run, shard, nshards int, replayFile string) {
 		r.Sample(path)
 		return
 	}
+	t0 := time.Now()
 	res := explore.Run(r, spec)
+	if os.Getenv("C02_VERBOSE") != "" {
+		fmt.Fprintf(os.Stderr, "c02 worker %s %d/%d: depth %d/%d states=%d transitions=%d capped=%v %.1fs\n", e.d.Name, sl.Sub, sl.NSub, res.DepthCompleted, sl.Depth, res.States, res.Transitions, res.Capped, time.Since(t0).Seconds())
+	}
 	if sl.Sub == 0 {
 		r.Extra["depth_completed:"+e.d.Name] = float64(res.DepthCompleted)
 		r.Extra["depth_bound:"+e.d.Name] = float64(sl.Depth)
 	}
+}
+
+func deadline(r *report.Run) time.Time {
+	if s, _ := strconv.Atoi(os.Getenv("C02_DEADLINE")); s > 0 { // debugging
+		return r.Deadline(time.Duration(s)*time.Second, time.Duration(s)*time.Second)
+	}
+	return r.Deadline(100*time.Second, 23*time.Minute)
 }
 
 func setup(r *report.Run, sl slot) *env {
@@ -597,7 +606,7 @@ func (e *env) ops(n *explore.Node) []explore.Op {
 	})
 	cur, _ := e.powers(n.Ctx)
 	for vi := range w.Vals {
-		if vi+1 <= g0.PowerPending || g0.NPower >= e.sl.MaxPower {
+		if vi+1 <= g0.PowerPending {
 			continue
 		}
 		for _, p := range []int64{0, e.d.Powers[vi], 2 * e.d.Powers[vi]} {
@@ -612,7 +621,6 @@ func (e *env) ops(n *explore.Node) []explore.Op {
 					return explore.Failf("harness:power", "%v", err)
 				}
 				g.PowerPending = vi + 1
-				g.NPower++
 				if count {
 					e.bump("power_changes")
 				}
@@ -620,7 +628,7 @@ func (e *env) ops(n *explore.Node) []explore.Op {
 			})
 		}
 	}
-	if g0.PowerPending == 0 && !g0.AfterOverride && g0.NOverride < e.sl.MaxOverride {
+	if g0.PowerPending == 0 && !g0.AfterOverride {
 		last := e.cursor(n.Ctx)
 		for _, k := range []int64{int64(last) - 1, int64(last), int64(last) + 1} {
 			if k < 0 {
@@ -636,7 +644,6 @@ func (e *env) ops(n *explore.Node) []explore.Op {
 				g.Cursor = k
 				g.EpochNonces = []uint64{}
 				g.AfterOverride = true
-				g.NOverride++
 				if count {
 					e.bump("overrides")
 				}
